@@ -323,7 +323,9 @@ def replay(ctx, body):
     if r['fails']:
         print('VIOLATION property=C12 replay=%s' % body.get('replay_cmd', '').split()[-1])
         return 1
-    if r['obs'] is not None:
+    if r['obs'] is not None and body.get('kind') == 'no-failing-input-found':
+        # the tie had broken: rebuild the model from the tree under test, then compare inside Coq
+        core.build(ctx, target=['Check/C12.vo'])
         bad, errors = core.coq_eval_cases(ctx, IMPORTS + c_lib(lib), CASE_TYPE, [c_case(lib, case, r['obs'])], 'C12.mismatches thelib')
         if bad or errors:
             print('model and implementation differ on this scene: %s' % json.dumps(errors)[:500])
